@@ -97,6 +97,19 @@ claim("C09", "exploration",
       "Trusted: the tick point in try_take_one_with is the bounded-time signal (120 s watchdog as backstop). Async streams are polled directly with a counting waker.",
       "DESIGN.md section 2, C09")
 
+claim("C11", "exploration",
+      "model-based (stateful) property-based testing: generated histories of discovery events applied to a real DiscoveryDB and the real (never started) DPEventLoop handlers; model of the currently announced compatible endpoints predicts matched sets and the exact status-event stream",
+      "Generated histories (participant announced/re-announced/disposed/timed out by participant_cleanup on a virtual clock/found again; endpoint announced/re-announced/disposed; compatible and incompatible QoS) are applied as Discovery applies them (DiscoveryDB::update_* then DPEventLoop::remote_*_discovered / remote_*_lost / remote_participant_lost / update_participant via guarded wrappers). "
+      "After every event each local reader's / writer's matched set must equal the model's set, and its status channel must contain exactly the expected events with total (never decreasing, +1 per new match), current (= set size, +-1 per event) and incompatible-QoS counts.",
+      "Trusted: the model in incrate/c11_matching.rs; 'currently announced' as defined in the evidence assumptions. The SEDP DataReader layer between the wire and these handlers is covered by C15 (wire) and C07 (end to end).",
+      "DESIGN.md section 2, C11")
+claim("C12", "exploration",
+      "model-based (stateful) property-based testing of DiscoveryDB with a virtual clock: generated timings of announcements, liveness signals, clean-ups, disposes and reappearances around the lease boundaries",
+      "Generated histories on a real DiscoveryDB whose Instant::now() is virtual (guarded hook): time advances are drawn around each participant's lease (lease-1ms, lease, lease+1ms, 2*lease, half, tiny); participant_cleanup must return exactly the participants whose last life sign (SPDP announcement or liveness side channel) is older than their lease, never one within it; "
+      "dispose removes at once together with the endpoints; after a time-out and re-announcement the previously learned endpoints are listed again, after a dispose they are not.",
+      "Trusted: the model in incrate/c12_lease.rs; the virtual-instant hook replaces the three Instant::now() calls of discovery_db.rs. ParticipantLost status events and the unmatching that follows are covered by C11.",
+      "DESIGN.md section 2, C12")
+
 NOT_YET = {
 }
 
